@@ -1,5 +1,6 @@
 """C14 - interactions conserve energy, cross sections are consistent, event trees are well formed."""
 from pyvc.spec import *
+import numpy as np
 
 GQRS = "pyrex.particle.GQRSInteraction"
 CTW = "pyrex.particle.CTWInteraction"
@@ -339,3 +340,59 @@ def event_roots_must_be_particles():
     p = obj(PT, _tag=0)
     ev = new(EV, p)
     prove("single-root-wrapped", And(len(ev) == 1, ev.roots[0] is p, len(ev.get_children(p)) == 0))
+
+
+# ---------------------------------------------------------------------------
+# the CTW inelasticity is the published inverse-CDF sampling (CTW 2011, eqs. 14-18 and table V) of its two uniform draws
+# ---------------------------------------------------------------------------
+
+CTW_HIGH_Y = {("charged_current", 1): (-0.008, 0.26, 3, 1.7), ("charged_current", -1): (-0.0026, 0.085, 4.1, 1.7),
+              ("neutral_current", 1): (-0.005, 0.23, 3, 1.7), ("neutral_current", -1): (-0.005, 0.23, 3, 1.7)}
+CTW_LOW_Y = (0, 0.0941, 4.72, 0.456)
+
+
+def _ctw_published(kind_name, int_kind, sign):
+    eps = real("eps", 3, 12)
+    if NATIVE:
+        E = 10 ** eps
+    else:
+        E = real("E")
+        assume(And(E > 0, eq(log(E) / log(10), eps)))
+    i, p = _interaction(CTW, kind_name, int_kind, E)
+    n0 = len(draws())
+    y = i.choose_inelasticity()
+    us = draws()[n0:]
+    prove("two-uniform-draws", len(us) == 2)
+    u_branch, r = us[0], us[1]
+    low = u_branch < 0.128 * np.sin(-0.197 * (eps - 21.8))
+    c_2 = 2.55 - 0.0949 * eps
+    if low:
+        a_0, a_1, a_2, a_3 = CTW_LOW_Y
+        c_1 = a_0 - a_1 * np.exp(-(eps - a_2) / a_3)
+        want = c_1 + (r * (0.001 - c_1) ** (1 - 1 / c_2) + (1 - r) * (0 - c_1) ** (1 - 1 / c_2)) ** (c_2 / (c_2 - 1))
+        prove("low-y-branch-is-the-published-inverse-cdf", eq(y, want))
+    else:
+        a_0, a_1, a_2, a_3 = CTW_HIGH_Y[(int_kind, sign)]
+        c_1 = a_0 - a_1 * np.exp(-(eps - a_2) / a_3)
+        want = (1 - c_1) ** r / (0.001 - c_1) ** (r - 1) + c_1
+        prove("high-y-branch-is-the-published-inverse-cdf-with-the-coefficients-of-this-channel", eq(y, want))
+
+
+@harness(clause="inelasticity")
+def ctw_inelasticity_published_nu_cc():
+    _ctw_published("electron_neutrino", "charged_current", 1)
+
+
+@harness(clause="inelasticity")
+def ctw_inelasticity_published_nubar_cc():
+    _ctw_published("muon_antineutrino", "charged_current", -1)
+
+
+@harness(clause="inelasticity")
+def ctw_inelasticity_published_nu_nc():
+    _ctw_published("tau_neutrino", "neutral_current", 1)
+
+
+@harness(clause="inelasticity")
+def ctw_inelasticity_published_nubar_nc():
+    _ctw_published("electron_antineutrino", "neutral_current", -1)
